@@ -100,3 +100,96 @@ pub open spec fn stream_next_nonce(k: Seq<u8>, n: Seq<u8>, mac: Seq<u8>, tag: u8
 }
 
 } // verus!
+
+verus! {
+
+/// tag byte recovered by pull from the first ciphertext byte
+pub open spec fn stream_pull_tag(k: Seq<u8>, n: Seq<u8>, c0: u8) -> u8 {
+    c0 ^ chacha20_stream(k, n, 64)
+}
+
+/// pull accepts ciphertext c (with associated data ad) in state (k, n) iff it is long enough and its last 16 bytes are
+/// the Poly1305 tag of the layout that push authenticates
+pub open spec fn stream_pull_accepts(k: Seq<u8>, n: Seq<u8>, c: Seq<u8>, ad: Seq<u8>) -> bool {
+    c.len() >= 17 && {
+        let mlen = c.len() - 17;
+        let body = c.subrange(1, 1 + mlen);
+        c.subrange(1 + mlen, 17 + mlen) == stream_mac(k, n, ad, stream_tagblock(k, n, stream_pull_tag(k, n, c[0])), body)
+    }
+}
+
+/// the tag block that pull authenticates (first ciphertext byte, then keystream) is the one push produced
+pub proof fn lemma_pull_tagblock(k: Seq<u8>, n: Seq<u8>, c0: u8, enc: Seq<u8>)
+    requires
+        enc == cc_xor(zeros(64).update(0, c0), k, n, 64),
+    ensures
+        enc[0] == stream_pull_tag(k, n, c0),
+        enc.update(0, c0) == stream_tagblock(k, n, stream_pull_tag(k, n, c0)),
+{
+    let ks = chacha20_stream(k, n, 64);
+    let t = stream_pull_tag(k, n, c0);
+    assert((c0 ^ ks) ^ ks == c0) by (bit_vector);
+    let tb = stream_tagblock(k, n, t);
+    assert forall|i: int| 0 <= i < 64 implies #[trigger] enc.update(0, c0)[i] == tb[i] by {
+        if i == 0 {
+            assert(tb[0] == t ^ ks);
+        } else {
+            assert(zeros(64).update(0, c0)[i] == 0u8);
+            assert(zeros(64).update(0, t)[i] == 0u8);
+        }
+    }
+    assert(enc.update(0, c0) =~= tb);
+}
+
+/// decrypting the body is the same XOR as encrypting
+pub proof fn lemma_cc_xor_involutive(m: Seq<u8>, k: Seq<u8>, n: Seq<u8>, off: int)
+    ensures
+        cc_xor(cc_xor(m, k, n, off), k, n, off) =~= m,
+{
+    assert forall|i: int| 0 <= i < m.len() implies #[trigger] cc_xor(cc_xor(m, k, n, off), k, n, off)[i] == m[i] by {
+        let a = m[i];
+        let b = chacha20_stream(k, n, off + i);
+        assert((a ^ b) ^ b == a) by (bit_vector);
+    }
+}
+
+} // verus!
+
+verus! {
+
+/// C03 lockstep, as a theorem over the push/pull contracts: in equal states, the ciphertext produced by push is
+/// accepted by pull (same associated data), pull recovers exactly the message and the tag, and — because both sides
+/// then step with the same authenticator and tag — the two states are equal again.
+pub proof fn lemma_stream_lockstep(k: Seq<u8>, n: Seq<u8>, m: Seq<u8>, ad: Seq<u8>, tag: u8)
+    ensures
+        ({
+            let c = stream_push_ct(k, n, m, ad, tag);
+            let mac = c.subrange(c.len() - 16, c.len() as int);
+            &&& c.len() == m.len() + 17
+            &&& stream_pull_accepts(k, n, c, ad)
+            &&& stream_pull_tag(k, n, c[0]) == tag
+            &&& stream_body(k, n, c.subrange(1, c.len() - 16)) == m
+            &&& mac == c.subrange(1 + m.len() as int, 17 + m.len() as int)
+        }),
+{
+    let tb = stream_tagblock(k, n, tag);
+    let body = stream_body(k, n, m);
+    let mac = stream_mac(k, n, ad, tb, body);
+    let c = stream_push_ct(k, n, m, ad, tag);
+    assert(mac.len() == 16) by {
+        lemma_poly1305_spec_len(stream_otk(k, n), stream_mac_input(ad, tb, body));
+    }
+    assert(c =~= seq![tb[0]] + body + mac);
+    assert(c.len() == m.len() + 17);
+    let ks = chacha20_stream(k, n, 64);
+    assert(tb[0] == tag ^ ks);
+    assert((tag ^ ks) ^ ks == tag) by (bit_vector);
+    assert(stream_pull_tag(k, n, c[0]) == tag);
+    assert(c.subrange(1, 1 + m.len() as int) =~= body);
+    assert(c.subrange(1 + m.len() as int, 17 + m.len() as int) =~= mac);
+    lemma_cc_xor_involutive(m, k, n, 128);
+    assert(c.subrange(1, c.len() - 16) =~= body);
+    assert(c.subrange(c.len() - 16, c.len() as int) =~= mac);
+}
+
+} // verus!
